@@ -142,7 +142,8 @@ pub struct St {
     cvq: Vec<u8>,
     atom: [u8; 2],
     /// every value ever stored with RStore (a relaxed load may legally return an older one)
-    hist: [Vec<u8>; 2],
+    /// every relaxed store so far with the storing thread's clock (which stale values a relaxed load may still return)
+    hist: [Vec<(u8, VC)>; 2],
     nflag: bool,
     nspur: bool,
     res: Vec<Vec<i64>>,
@@ -203,7 +204,7 @@ impl<'a> Machine<'a> {
             rx_dropped: false,
             cvq: vec![],
             atom: [0; 2],
-            hist: [vec![0], vec![0]],
+            hist: [vec![(0, [0; NT])], vec![(0, [0; NT])]],
             nflag: false,
             nspur: false,
             res: vec![Vec::new(); n],
@@ -596,7 +597,21 @@ impl<'a> Machine<'a> {
             SOp::RLoad(x) => {
                 let x = x as usize;
                 // soundness form: any value stored so far (stale relaxed reads are legal); completeness form: the latest
-                let vals: Vec<u8> = if self.spurious { s.hist[x].clone() } else { vec![s.atom[x]] };
+                // (any store that is not happens-before-superseded: a store i is out once a store j that i happens-before
+                // happens-before the reader - coherence)
+                let vals: Vec<u8> = if self.spurious {
+                    let h = &s.hist[x];
+                    let mut vals: Vec<u8> = Vec::new();
+                    for (i, (val, ci)) in h.iter().enumerate() {
+                        let superseded = h.iter().enumerate().any(|(j, (_, cj))| j > i && vle(ci, cj) && vle(cj, &s.vc[t]));
+                        if !superseded && !vals.contains(val) {
+                            vals.push(*val);
+                        }
+                    }
+                    vals
+                } else {
+                    vec![s.atom[x]]
+                };
                 for val in vals {
                     let mut n2 = s.clone();
                     n2.res[t].push(val as i64);
@@ -607,8 +622,9 @@ impl<'a> Machine<'a> {
             }
             SOp::RStore(x, val) => {
                 ns.atom[x as usize] = val;
-                if !ns.hist[x as usize].contains(&val) {
-                    ns.hist[x as usize].push(val);
+                let c = ns.vc[t];
+                if !ns.hist[x as usize].contains(&(val, c)) {
+                    ns.hist[x as usize].push((val, c));
                 }
                 adv(&mut ns);
                 v.push((ns, true, None));
@@ -1275,6 +1291,9 @@ impl Drop for CleanupOnUnwind {
     fn drop(&mut self) {
         if std::thread::panicking() {
             if let Some(o) = &self.0 {
+                // a read-modify-write, a load and a store: the first two are decisions of their own (which store is read)
+                o.atoms[1].fetch_add(1, std::sync::atomic::Ordering::SeqCst);
+                let _ = o.atoms[1].load(std::sync::atomic::Ordering::SeqCst);
                 o.atoms[1].store(9, std::sync::atomic::Ordering::SeqCst);
             }
         }
